@@ -29,6 +29,13 @@ from harness import core, tlc, tlaval
 
 LEVEL = "model_checking"
 PID = "C06"
+# The fix: commits of /repo that LazyKernel.tla has to follow (CONSTANT Repairs).  slice_stop_0 and active_dims_buffer switch
+# the transcription (LKGetItem, KGetItem / KExpand, StepClass); the other four repair kernel classes the module does not
+# model (they are decided by the zoo relations) and are listed so that the tuple names every C06 repair in the tree.
+ALL_REPAIRS = ("slice_stop_0", "active_dims_buffer", "product_expand_batch", "index_diag", "multitask_active_dims", "call_diag")
+REPAIRS_IN_TREE = ALL_REPAIRS
+if os.environ.get("VERIF_C06_REPAIRS") is not None:  # development / mutation testing against an older tree
+    REPAIRS_IN_TREE = tuple(x for x in os.environ["VERIF_C06_REPAIRS"].split(",") if x in ALL_REPAIRS)
 NONE = 99
 TOL = 1e-10
 
@@ -73,7 +80,7 @@ def plan(thorough):
     # the axis-by-axis index function of the code-shaped side is PyIndex!TIndex (no Agree here: a single complete run)
     run("fast", 3, 2, 1, fams([U], ["ix", "lx", "el"] + (["ss"] if thorough else [])) + fams(P_RANK1[:1], ["bx"]), nchunks=2, inv=("FastIsTIndex", "SizeIsDenseShape"))
     # t = 2 (multi-output kernels)
-    r1 = P_RANK1 if thorough else P_RANK1[:4]
+    r1 = P_RANK1 if thorough else P_RANK1[:3]
     n1 = 3 if thorough else 2
     run("t2", n1, 2, 2, fams([U], FAMS_U) + fams(r1, ["bx", "be"]) + (fams(P_RANK2[:3], ["bf"]) if thorough else []), nchunks=6, split=6 if thorough else 3, workers=6)
     if thorough:
@@ -104,7 +111,7 @@ def write_mc(wd, r):
         f.write("---- MODULE %s ----\nEXTENDS LazyKernel\nTailsDef == %s\nADDef == %s\nJobsDef == %s\nChunkSetDef == {%s}\n====\n" % (
             mod, tla(r["tails"]), tla(r["ad"]), jobs, ", ".join(str(c) for c in r["chunks"])))
     cfg = os.path.join(wd, mod + ".cfg")
-    tlc.write_cfg(cfg, spec="Spec", constants={"N1": r["n1"], "N2": r["n2"], "T": r["t"], "Tails": "<- TailsDef", "AD": "<- ADDef", "Jobs": "<- JobsDef",
+    tlc.write_cfg(cfg, spec="Spec", constants={"N1": r["n1"], "N2": r["n2"], "T": r["t"], "Tails": "<- TailsDef", "AD": "<- ADDef", "Jobs": "<- JobsDef", "Repairs": set(REPAIRS_IN_TREE),
                                                "MaxSteps": r["steps"], "Pad": r["pad"], "NChunks": r["nchunks"], "ChunkSet": "<- ChunkSetDef"},
                   invariants=r["inv"])
     return os.path.join(wd, mod + ".tla"), cfg
@@ -441,7 +448,9 @@ def replay_state(torch, cfg, pat, hist, knames, thorough):
                 res.update(ok=False, sig=cell, detail="%s%s: lazy result differs from the same operation on the dense matrix (%s): %s" % (desc, who, kind, msg))
         if kn == "stub":
             stub_ok = res["ok"]
-        if kn == "stub" and res["ok"] != bool(last["agree"]) and all(h["agree"] for h in hist[:-1]):
+        if kn == "stub" and res["ok"] != bool(last["agree"]) and all(h["agree"] for h in hist[:-1]) and not (res["ok"] and ref.numel() == 0):
+            # (agreement on an EMPTY result where the model expects an error carries no information: not counted)
+            res["drift_kind"] = "refuted" if res["ok"] else "unpredicted"
             res["drift"] = "LazyKernel.tla predicts %s for %s but the stub kernel %s" % ("agreement" if last["agree"] else "a mismatch", desc, "agrees" if res["ok"] else "fails")
         if not res["ok"]:
             res["case"] = dict(kind="state", cfg=cfg, pat=[list(x) for x in pat], hist=hist, kernel=kn)
@@ -522,6 +531,7 @@ def replay_kernel_op(torch, cfg, pat, hist, knames, desc):
         if kn == "stub":
             stub_ok = res["ok"]
         if kn == "stub" and res["ok"] != bool(h["agree"]):
+            res["drift_kind"] = "refuted" if res["ok"] else "unpredicted"
             res["drift"] = "LazyKernel.tla predicts %s for %s but the stub kernel %s" % ("agreement" if h["agree"] else "a mismatch", desc, "agrees" if res["ok"] else "fails")
         if not res["ok"]:
             res["case"] = dict(kind="state", cfg=cfg, pat=[list(x) for x in pat], hist=hist, kernel=kn)
@@ -567,6 +577,7 @@ def _state_worker(item):
         for r in res:
             r["br"] = [str(x) for x in last["br"]] + [str(last["path"])]
             r["predicted"] = bool(last["agree"]) or bool(last["eerr"])
+            r["cls"] = "%s:%s" % (last["op"] if last["op"] != "getitem" else "getitem", last["cls"])
         out.extend(res)
     return out
 
@@ -785,10 +796,10 @@ def run(ck):
         for i0 in range(0, len(hdrs), step):
             j = hdrs[i0 + step] if i0 + step < len(hdrs) else len(text)
             items.append(dict(cfg=cfgd, thorough=thorough, text=text[hdrs[i0]:j]))
-    if predicted:
-        ck.model_drift("LazyKernel.tla (model of the pinned code) violates the plain invariant Agree in %d of %d TLC run(s); first counterexamples: %s; AgreeExceptKnown holds in every run; "
-                       "the replay decides each predicted case" % (len(predicted), len(PP), "; ".join("%s: %s" % kv for kv in sorted(predicted.items())[:4])))
+    # the model of the tree (Repairs = REPAIRS_IN_TREE) still violates the plain invariant where a known finding is not repaired:
+    # first counterexample per run, for the record (the replay decides every predicted case)
     ck.extra["agree_counterexamples"] = predicted
+    ck.extra["repairs_in_tree"] = list(REPAIRS_IN_TREE)
     results = core.pmap(_state_worker, items, chunksize=1)
     # branch coverage of the transcribed case analysis (vacuity guard) and prediction accounting
     seen, conf, unpred, pess = set(), 0, 0, 0
@@ -804,17 +815,31 @@ def run(ck):
             elif not r["predicted"]:
                 pess += 1
     need = ["fast", "getitem", "squeeze", "absorbed", "t1", "mt-divided", "mt-nonslice", "mt-step", "mt-indivisible", "x-direct", "x-expanded", "k-same", "k-getitem",
-            "k-expanded", "ad-kept", "ad-changed", "transpose", "unsqueeze", "repeat", "diagonal", "kgetitem", "kexpand", "dense"]
+            "k-expanded", "ad-kept"] + (["ad-changed"] if "active_dims_buffer" not in REPAIRS_IN_TREE else []) + ["transpose", "unsqueeze", "repeat", "diagonal", "kgetitem", "kexpand", "dense"]
     for b in need:
         if b not in seen and not only:
             ck.vacuous("branch %r of the transcribed code was never taken by a replayed case" % b)
     ck.extra["branches_replayed"] = sorted(seen)
     ck.extra["stub_predictions"] = dict(predicted_mismatch_confirmed=conf, mismatch_not_predicted=unpred, predicted_mismatch_not_observed=pess)
-    drifts = [r.pop("drift") for r in results if r.get("drift")]
-    if drifts:
-        ck.model_drift("%d case(s) where the stub kernel deviates from the model's prediction" % len(drifts))
-        for d in drifts[:int(os.environ.get("VERIF_C06_DRIFTS", "3"))]:
+    # A prediction refuted by the real code means a repair landed - unless other cases of the same class still fail: then the
+    # agreement is a coincidence of values inside an unrepaired class (e.g. a mis-indexed parameter that happens to be the right one)
+    still_failing = {r.get("cls") for r in results if not r.get("machinery") and r["key"][-1] == "stub" and not r.get("ok", True)}
+    refuted = [r["drift"] for r in results if r.get("drift_kind") == "refuted" and r.get("cls") not in still_failing]
+    coincid = [r["drift"] for r in results if r.get("drift_kind") == "refuted" and r.get("cls") in still_failing]
+    unpredicted = [r["drift"] for r in results if r.get("drift_kind") == "unpredicted"]
+    for r in results:
+        r.pop("drift", None)
+        r.pop("drift_kind", None)
+        r.pop("cls", None)
+    ck.extra["coincidental_agreement_inside_failing_class"] = dict(count=len(coincid), examples=coincid[:3])
+    if refuted:
+        ck.model_drift("%d case(s) LazyKernel.tla (Repairs = %s) predicts to fail pass on the real code and no case of their class fails any more: a repair is in "
+                       "the tree, add its name to REPAIRS_IN_TREE in checks/c06.py" % (len(refuted), list(REPAIRS_IN_TREE)))
+        for d in refuted[:int(os.environ.get("VERIF_C06_DRIFTS", "3"))]:
             ck.model_drift(d)
+    # failures the model does not predict are reported by the oracle as cells of their own (linear_operator refusing empty
+    # selections, [-1] on an evaluated operator in a chain); recorded here, not drift of a repaired class
+    ck.extra["failures_not_predicted_by_model"] = dict(count=len(unpredicted), examples=unpredicted[:5])
     ck.section("replay", cases=len(results))
     t2 = os.times()
     ck.extra["cpu_seconds"]["replay"] = round(t2.children_user + t2.children_system - t1.children_user - t1.children_system, 1)
